@@ -3,9 +3,11 @@
 * This file is part of BitSerializer library, licensed under the MIT license.  *
 *******************************************************************************/
 #pragma once
+#include <exception>
 #include <optional>
 #include <string>
 #include <type_traits>
+#include <utility>
 #include "bitserializer/export.h"
 #include "bitserializer/serialization_detail/archive_base.h"
 #include "bitserializer/serialization_detail/errors_handling.h"
@@ -43,6 +45,27 @@ public:
 	virtual void WriteValue(const std::string_view& key, std::string_view value) = 0;
 	virtual void NextLine() = 0;
 	[[nodiscard]] virtual size_t GetCurrentIndex() const noexcept = 0;
+
+	/// <summary>
+	/// Keeps the first error of a row which was completed in the destructor of its scope (a destructor must not throw),
+	/// the root scope reports it from `Finalize()`.
+	/// </summary>
+	void DeferError(std::exception_ptr error) noexcept
+	{
+		if (!mDeferredError) {
+			mDeferredError = std::move(error);
+		}
+	}
+
+	void RethrowDeferredError()
+	{
+		if (mDeferredError) {
+			std::rethrow_exception(std::exchange(mDeferredError, nullptr));
+		}
+	}
+
+private:
+	std::exception_ptr mDeferredError;
 };
 
 class BITSERIALIZER_API ICsvReader
@@ -72,7 +95,13 @@ public:
 
 	~CCsvWriteObjectScope()
 	{
-		mCsvWriter->NextLine();
+		try {
+			mCsvWriter->NextLine();
+		}
+		catch (...) {
+			// A destructor must not throw (std::terminate), the error is reported when saving is finalized
+			mCsvWriter->DeferError(std::current_exception());
+		}
 	}
 
 	/// <summary>
@@ -167,7 +196,10 @@ public:
 		return std::make_optional<CsvWriteArrayScope>(mCsvWriter, GetContext());
 	}
 
-	void Finalize() const noexcept { /* Not required */ }
+	void Finalize() const
+	{
+		mCsvWriter->RethrowDeferredError();
+	}
 
 private:
 	ICsvWriter* mCsvWriter = nullptr;
